@@ -3649,7 +3649,13 @@ impl KotoVm {
                         StringAlignment::Default => {
                             if value_is_number {
                                 // Right-alignment by default for numbers
-                                fill.repeat(fill_chars) + &rendered
+                                match rendered.strip_prefix('-') {
+                                    // Zero-padding goes between the sign and the digits
+                                    Some(digits) if fill.as_str() == "0" => {
+                                        format!("-{}{digits}", fill.repeat(fill_chars))
+                                    }
+                                    _ => fill.repeat(fill_chars) + &rendered,
+                                }
                             } else {
                                 // Left alignment by default for non-numbers
                                 rendered + &fill.repeat(fill_chars)
